@@ -152,7 +152,7 @@ def conditions(tier):
         out.append(_mk("nearest_neighbor", (2, 1), 1, inf_radius=inf))
         out.append(_mk("symdel", (2,), 1, qshape=(2,), inf_radius=inf))
         out.append(_mk("symdel", (2, 1), 1, qshape=(1,), inf_radius=inf))
-        for shape, k in [((1, 1), 1), ((2, 1), 1), ((2, 2), 1), ((1, 1, 1), 1), ((2, 1), 2)]:
+        for shape, k in [((1, 1), 1), ((2, 1), 1), ((2, 2), 1), ((1, 1, 1), 1), ((2, 1), 2), ((2, 2, 2), 1)]:
             out.append(_mk("kdtree", shape, k, letters="AY", inf_radius=inf))
         for shape, k in [((1, 1), 1), ((2, 1), 1), ((1, 1, 1), 1), ((1, 1), 2)]:
             out.append(_mk("hash_based", shape, k, letters="AC", inf_radius=inf))
